@@ -127,40 +127,87 @@ func runC17(c *eng.Ctx) {
 					continue
 				}
 				mc := &mcase{typ: n, reads: map[string]bool{}, body: cc}
-				ast.Inspect(cc, func(x ast.Node) bool {
-					switch v := x.(type) {
-					case *ast.KeyValueExpr:
-						if id, ok := v.Key.(*ast.Ident); ok && id.Name == "Type" {
-							if s, ok := constString(info, v.Value); ok {
-								mc.tags = append(mc.tags, s)
+				// the case body is read with unexported same-package helpers looked through (their parameters stand for the
+				// arguments of the call): how the envelope is built does not depend on where the code is written
+				var visit func(root ast.Node, subst map[string]ast.Expr, depth int)
+				visit = func(root ast.Node, subst map[string]ast.Expr, depth int) {
+					res := func(e ast.Expr) ast.Expr {
+						for k := 0; k < 4; k++ {
+							id, ok := e.(*ast.Ident)
+							if !ok {
+								break
 							}
+							r, ok := subst[id.Name]
+							if !ok {
+								break
+							}
+							e = r
 						}
-						if id, ok := v.Key.(*ast.Ident); ok && id.Name == "Expr" {
-							if call, ok := v.Value.(*ast.CallExpr); ok {
-								if sel, ok := call.Fun.(*ast.SelectorExpr); ok && sel.Sel.Name == "JSONMarshal" && len(call.Args) == 1 {
-									if a, ok := call.Args[0].(*ast.Ident); ok {
-										if a.Name == "expr" || a.Name == "e" {
-											mc.leaf = true
+						return e
+					}
+					ast.Inspect(root, func(x ast.Node) bool {
+						switch v := x.(type) {
+						case *ast.KeyValueExpr:
+							if id, ok := v.Key.(*ast.Ident); ok && id.Name == "Type" {
+								if s, ok := constString(info, res(v.Value)); ok {
+									mc.tags = append(mc.tags, s)
+								}
+							}
+							if id, ok := v.Key.(*ast.Ident); ok && id.Name == "Expr" {
+								val := res(v.Value)
+								if call, ok := val.(*ast.CallExpr); ok {
+									if sel, ok := call.Fun.(*ast.SelectorExpr); ok && sel.Sel.Name == "JSONMarshal" && len(call.Args) == 1 {
+										if a, ok := res(call.Args[0]).(*ast.Ident); ok {
+											if a.Name == "expr" || a.Name == "e" {
+												mc.leaf = true
+											}
 										}
 									}
 								}
 							}
+						case *ast.SelectorExpr:
+							if id, ok := res(v.X).(*ast.Ident); ok && id.Name == "e" {
+								mc.reads[v.Sel.Name] = true
+							}
+						case *ast.CompositeLit:
+							if cn := namedOf(info.TypeOf(v)); cn != nil && strings.HasPrefix(cn.Obj().Name(), "inner") {
+								mc.carrier = cn
+							}
+						case *ast.CallExpr:
+							if sel, ok := v.Fun.(*ast.SelectorExpr); ok && sel.Sel.Name == "JSONMarshal" {
+								mc.usesJSON = true
+							}
+							if id, ok := v.Fun.(*ast.Ident); ok && depth < 2 && !ast.IsExported(id.Name) {
+								if hd := funcDecl(pk, id.Name, ""); hd != nil && hd.Body != nil && hd.Type.Params != nil {
+									sub2 := map[string]ast.Expr{}
+									i := 0
+									for _, fld := range hd.Type.Params.List {
+										for _, nm := range fld.Names {
+											if i < len(v.Args) {
+												sub2[nm.Name] = res(v.Args[i])
+											}
+											i++
+										}
+									}
+									// single-assignment locals of the helper stand for their initialiser
+									ast.Inspect(hd.Body, func(y ast.Node) bool {
+										if as, ok := y.(*ast.AssignStmt); ok && as.Tok == token.DEFINE && len(as.Lhs) == 1 && len(as.Rhs) == 1 {
+											if lid, ok := as.Lhs[0].(*ast.Ident); ok {
+												if _, dup := sub2[lid.Name]; !dup {
+													sub2[lid.Name] = as.Rhs[0]
+												}
+											}
+										}
+										return true
+									})
+									visit(hd.Body, sub2, depth+1)
+								}
+							}
 						}
-					case *ast.SelectorExpr:
-						if id, ok := v.X.(*ast.Ident); ok && id.Name == "e" {
-							mc.reads[v.Sel.Name] = true
-						}
-					case *ast.CompositeLit:
-						if cn := namedOf(info.TypeOf(v)); cn != nil && strings.HasPrefix(cn.Obj().Name(), "inner") {
-							mc.carrier = cn
-						}
-					case *ast.CallExpr:
-						if sel, ok := v.Fun.(*ast.SelectorExpr); ok && sel.Sel.Name == "JSONMarshal" {
-							mc.usesJSON = true
-						}
-					}
-					return true
-				})
+						return true
+					})
+				}
+				visit(cc, map[string]ast.Expr{}, 0)
 				marshal[n.Obj().Name()] = mc
 			}
 		}
